@@ -221,7 +221,8 @@ DelCells(op) ==
     /\ Idle /\ op.op = "del_cells"
     /\ LET s == op.s  n == op.c IN
        IF n \notin DOMAIN M.cm[s] \/ M.cm[s][n].derived THEN Done(op, "rejected", M)
-       ELSE Done(op, "ok", Kill(UpdateSpaces([M EXCEPT !.cm[s] = Drop(@, {n})],
+       \* (references to the deleted object die before a namesake is derived from a base)
+       ELSE Done(op, "ok", Kill(UpdateSpaces(Kill([M EXCEPT !.cm[s] = Drop(@, {n})]),
                                              <<s>> \o SubsOrdered(M.bases, s))))
 
 \* SpaceManager.set_cells_property: the cells itself becomes defined; derived
